@@ -123,6 +123,11 @@ func newRig(flavour string, n int, nids int, sizeOK bool) *rig {
 	for i := 0; i < nids; i++ {
 		id := make([]byte, sz)
 		id[0] = byte(i + 1)
+		if i == nids-1 && nids > 1 {
+			// the last identity starts with a zero byte and is told apart at its end
+			id[0] = 0
+			id[sz-1] = byte(i + 1)
+		}
 		r.d.ids = append(r.d.ids, id)
 	}
 	return r
@@ -333,7 +338,7 @@ func Run(cfg Config) (int, error) {
 			return false
 		}
 		if out == "accept" && len(sigs) > 0 { // tampering with any signed field must invalidate
-			for f := 0; f < 5; f++ {
+			for f := 0; f < 10; f++ {
 				d2 := rg.d
 				switch f {
 				case 0:
@@ -344,7 +349,7 @@ func Run(cfg Config) (int, error) {
 					d2.slot++
 				case 3:
 					d2.txPointer++
-				default:
+				case 4:
 					if len(d2.ids) == 0 {
 						continue
 					}
@@ -352,6 +357,37 @@ func Run(cfg Config) (int, error) {
 					ids[0] = append([]byte{}, ids[0]...)
 					ids[0][len(ids[0])-1] ^= 1
 					d2.ids = ids
+				case 5, 6: // an identity one byte longer (a byte in front) / one byte shorter (its first byte gone)
+					if len(d2.ids) == 0 {
+						continue
+					}
+					k := len(d2.ids) - 1
+					ids := append([][]byte{}, d2.ids...)
+					if f == 5 {
+						ids[k] = append([]byte{0xAB}, ids[k]...)
+					} else {
+						ids[k] = append([]byte{}, ids[k][1:]...)
+					}
+					d2.ids = ids
+				case 7: // two identities exchanged
+					if len(d2.ids) < 2 {
+						continue
+					}
+					ids := append([][]byte{}, d2.ids...)
+					ids[0], ids[1] = ids[1], ids[0]
+					d2.ids = ids
+				case 8: // one identity more
+					if len(d2.ids) == 0 {
+						continue
+					}
+					extra := make([]byte, len(rg.d.ids[0]))
+					extra[len(extra)-1] = 0xEE
+					d2.ids = append(append([][]byte{}, d2.ids...), extra)
+				default: // one identity fewer
+					if len(d2.ids) < 2 {
+						continue
+					}
+					d2.ids = append([][]byte{}, d2.ids[:len(d2.ids)-1]...)
 				}
 				if rg.flavour != "gnosis" && (f == 2 || f == 3) {
 					continue
